@@ -64,9 +64,6 @@ def backOKB (h : History) : Bool :=
          | some r' => r'.data == r.data && r'.dlen == r.dlen
          | none => false)
 
-def oneRecB (h : History) : Bool :=
-  h.all fun t => (t.recs.map (·.oid)).eraseDups.length == t.recs.length
-
 def b01 (b : Bool) : String := if b then "1" else "0"
 
 def appendRec (h : History) (r : Rec) : Option History :=
@@ -130,7 +127,7 @@ def pkStep (s : DState) (toks : List String) : DState × String :=
     match T.toNat? with
     | some T => (s, "strong=" ++ b01 (noResurrectionB s.h T true) ++ " weak=" ++ b01 (noResurrectionB s.h T false))
     | none => (s, "bad-op")
-  | ["wf"] => (s, "sorted=" ++ b01 (sortedB s.h) ++ " backok=" ++ b01 (backOKB s.h) ++ " onerec=" ++ b01 (oneRecB s.h))
+  | ["wf"] => (s, "sorted=" ++ b01 (sortedB s.h) ++ " backok=" ++ b01 (backOKB s.h))
   | _ => (s, "bad-op")
 
 def main : IO Unit := driverLoop pkStep ({} : DState)
